@@ -643,6 +643,10 @@ def gen_case(salt, i):
     """content tree number i of a run: (pl, tree, empty_dirs, options, classes)"""
     rng = random.Random(f"{salt}:e2e:{i}")
     pl = rng.choice([16384, 16384, 32768, 65536])
+    if i >= trees.AIMED0:       # the aimed small trees (structural shapes that must not depend on the luck of the generator)
+        tree, cl = trees.aimed_small(i - trees.AIMED0, rng, pl)
+        cl = (set(cl) - {"flat", "nested", "identical files"}) | trees.classify_names(tree)
+        return pl, tree, [], dict(rng.choice(OPTIONS)), set(cl)
     # every fourth tree carries all the aimed name groups of trees.add_aimed_names (decomposed Unicode next to a sibling that
     # sorts between the two spellings, glob metacharacters in directory and file names, mixed-case siblings), the others now and then
     tree, cl = trees.gen_tree(rng, pl, single_prob=1.0 if i % 6 == 0 else 0.08,
@@ -1474,8 +1478,8 @@ def e2e(ctx, prop):
         os.environ["HOME"] = tmp
         # the small trees, then the payloads at scale (piece lengths 2 .. 32 MiB): every creator and every command line of the
         # property on each of them, same judge
-        for i in list(range(n)) + [SCALE0 + j for j in scale_indices(ctx.tier)]:
-            cli = E2E_CLI[prop] if (i >= SCALE0 or cli_case(i)) else ()
+        for i in list(range(n)) + [trees.AIMED0 + j for j in range(trees.N_AIMED)] + [SCALE0 + j for j in scale_indices(ctx.tier)]:
+            cli = E2E_CLI[prop] if (i >= trees.AIMED0 or cli_case(i)) else ()
             case = build_case(tmp, salt, i, E2E_KINDS[prop], cli)
             states = [case] + ([case["changed"]] if case["changed"] else [])
             for cs in states:
